@@ -80,6 +80,9 @@ def run_c15(ctx, spec):
         if ml is None:
             continue
         mf = ml.split("\t")
+        if not ml.startswith("STRIPEQ "):
+            bad.append(dict(rep, what="the Lean driver did not answer this case: " + ml[:80], impl="", model=ml[:80], kind="machinery"))
+            continue
         se = mf[0].endswith("T")
         ms = len(mf) > 1 and mf[1].endswith("T")
         cmp_ = mf[3] if len(mf) > 3 else ""
@@ -111,7 +114,8 @@ def run_c15(ctx, spec):
         samples=samples, counters=cnt, generator=stats, lexer_half=lex_info,
         structural_agreement=(cnt["model_vs_real_diff"] == 0),
         functions_with_strip_theorem=FUNCS_PROVED, functions_exercised_only=FUNCS_EXERCISED)
-    bad.sort(key=lambda x: (len(x["a"]) + len(x["b"]), x["b"]))
+    from .prop_C08 import _diverse
+    bad = _diverse(bad, lambda x: (len(x["a"]) + len(x["b"]), x["b"]))
     seen = set()
     for x in bad:
         k = _key(x["a"], x["b"])
